@@ -80,6 +80,25 @@ def body_factory(known):
                                  {'op': 'twin', 'tag': 'C10', 'a': ev,
                                   'b': ev, 'fresh_b': True}, ev]
                 hist.flags.add('c10_instance_state_probe')
+            elif len(prs) >= 2 and data.draw(st.integers(0, 7),
+                                             label='leak') == 0:
+                # option-state probe: a PR carrying an option with an
+                # argument (a dependency on another open PR) is evaluated,
+                # then ANOTHER PR is evaluated on the long-lived and on a
+                # fresh instance
+                i = data.draw(st.integers(0, len(prs) - 1), label='lx')
+                j = data.draw(st.integers(0, len(prs) - 2), label='ly')
+                x = prs[i]
+                y = [p for p in prs if p != x][j]
+                steps = [{'op': 'comment', 'pr': x,
+                          'user': hist.world.prs[x]['author'],
+                          'text': '@robot after_pull_request=%d' % y},
+                         {'op': 'pr_event', 'pr': x},
+                         {'op': 'twin', 'tag': 'C10',
+                          'a': {'op': 'pr_event', 'pr': y},
+                          'b': {'op': 'pr_event', 'pr': y}, 'fresh_b': True},
+                         {'op': 'pr_event', 'pr': y}]
+                hist.flags.add('c10_option_state_probe')
             for step in steps:
                 probe = step['op'] in ('pr_event', 'commit_event') and \
                     probes < 5 and data.draw(st.integers(0, 2),
